@@ -77,6 +77,11 @@ Definition fc0 : fctl := {| in_count := 0; out_count := 0; depth := 0; max_depth
 Definition init : st := {| fc := fc0; enabled := true; cached := true; stack := []; ridx := 0; out := [];
                            warned := false |}.
 
+(* record -Z N (UFTRACE_MIN_SIZE): every thread starts with the size filter N (mcount_prepare: filter.size = mcount_min_size) *)
+Definition init_z (z : N) : st :=
+  {| fc := {| in_count := 0; out_count := 0; depth := 0; max_depth := FILTER_NO_MAX_DEPTH; ftime := NO_TIME; fsize := z |};
+     enabled := true; cached := true; stack := []; ridx := 0; out := []; warned := false |}.
+
 Inductive ev := Enter (a : N) (t : N) | Leave (t : N) | ForkChild.
 
 (* ---------------------------------------------------------------- record_trace_data *)
@@ -215,15 +220,29 @@ Definition ghost_frame : frame :=
   {| f_addr := 0; f_start := 0; f_end := 0; f_flags := noflags; f_depth := 0;
      sv_depth := 0; sv_max := 0; sv_time := 0; sv_size := 0; f_ghost := true |}.
 
+(* TRIGGER_FL_FILTER | DEPTH | TIME_FILTER | SIZE_FILTER: the trigger changes the per-thread filter state *)
+Definition state_trig (tr : trig) : bool :=
+  match t_filter tr, t_depth tr, t_time tr, t_size tr with
+  | None, None, None, None => false
+  | _, _, _, _ => true
+  end.
+
 Definition do_enter (c : cfg) (s0 : st) (a t : N) : st :=
   let '(s, v, tr, sv) := entry_check c s0 a in
   match shp c, v with
   | PG, V_IN =>
       entry_record c s {| f_addr := a; f_start := t; f_end := 0; f_flags := noflags; f_depth := ridx s;
                           sv_depth := 0; sv_max := 0; sv_time := 0; sv_size := 0; f_ghost := false |} tr sv
-  | PG, V_OUT =>                                 (* mcount_entry returns -1: nothing pushed, and what the trigger *)
-      {| fc := fc s0; enabled := enabled s; cached := cached s; stack := stack s; ridx := ridx s;   (* changed is undone *)
-         out := out s; warned := warned s |}           (* (mcount_entry_filter_undo) - except the global trace switch *)
+  | PG, V_OUT =>
+      (* rejected: a function whose trigger changed the filter state keeps a NORECORD frame like the always-push
+         shape (the state holds for its callees, its exit restores it); otherwise mcount_entry returns -1 *)
+      if state_trig tr then
+        entry_record c s {| f_addr := a; f_start := 0; f_end := 0;
+                            f_flags := {| norecord := true; notrace := false; filtered := false; written := false;
+                                          disabled := false; ftrace := false; fcaller := false; cygprof := false |};
+                            f_depth := ridx s;
+                            sv_depth := 0; sv_max := 0; sv_time := 0; sv_size := 0; f_ghost := false |} tr sv
+      else s
   | PG, _ => s                                   (* beyond the stack limit: nothing was changed *)
   | CYG, V_RSTACK =>
       {| fc := fc s; enabled := enabled s; cached := cached s; stack := ghost_frame :: stack s;
@@ -242,7 +261,7 @@ Definition do_enter (c : cfg) (s0 : st) (a t : N) : st :=
                           sv_depth := 0; sv_max := 0; sv_time := 0; sv_size := 0; f_ghost := false |} tr sv
   end.
 
-(* the code as found (before mcount_entry_filter_undo): a rejected -pg entry kept what its trigger had changed *)
+(* the code as found: a rejected -pg entry got no frame and kept what its trigger had changed *)
 Definition do_enter_legacy (c : cfg) (s0 : st) (a t : N) : st :=
   let '(s, v, tr, sv) := entry_check c s0 a in
   match shp c, v with
@@ -313,7 +332,11 @@ Definition run (c : cfg) (es : list ev) (s : st) : st := fold_left (step c) es s
 Definition hooked (c : cfg) (s : st) (a : N) : bool :=
   match shp c with
   | CYG => true
-  | PG => match entry_check c s a with (_, V_IN, _, _) => true | _ => false end
+  | PG => match entry_check c s a with
+          | (_, V_IN, _, _) => true
+          | (_, V_OUT, tr, _) => state_trig tr
+          | _ => false
+          end
   end.
 
 (* ---------------------------------------------------------------- on-disk word (record_ret_stack) *)
@@ -350,10 +373,15 @@ Definition dstep (c : cfg) (d : dstate) (e : ev) : dstate :=
   end.
 Definition exec (c : cfg) (es : list ev) (d : dstate) : dstate := fold_left (dstep c) es d.
 
+Definition hooked_legacy (c : cfg) (s : st) (a : N) : bool :=
+  match shp c with
+  | CYG => true
+  | PG => match entry_check c s a with (_, V_IN, _, _) => true | _ => false end
+  end.
 Definition dstep_legacy (c : cfg) (d : dstate) (e : ev) : dstate :=
   let '(s, hk) := d in
   match e with
-  | Enter a t => (do_enter_legacy c s a t, hooked c s a :: hk)
+  | Enter a t => (do_enter_legacy c s a t, hooked_legacy c s a :: hk)
   | _ => dstep c d e
   end.
 Definition exec_legacy (c : cfg) (es : list ev) (d : dstate) : dstate := fold_left (dstep_legacy c) es d.
@@ -402,4 +430,7 @@ Definition mkcfg (tr : list (N * trig)) (fm cl : bool) (gd thr ms : N) (sizes : 
 (* one correspondence case: model run vs. observed states and records *)
 Definition agree_case (c : cfg) (es : list ev) (ostates : list obs) (orecs : list seen5) : bool :=
   let '(l, (s, _)) := trace c es (init, []) in
+  list_eqb obs_eqb l ostates && list_eqb seen_eqb (map seen (out s)) orecs.
+Definition agree_case_z (z : N) (c : cfg) (es : list ev) (ostates : list obs) (orecs : list seen5) : bool :=
+  let '(l, (s, _)) := trace c es (init_z z, []) in
   list_eqb obs_eqb l ostates && list_eqb seen_eqb (map seen (out s)) orecs.
